@@ -18,7 +18,8 @@ import numpy as np
 
 FAMILIES = ["grid", "corenet", "interacting", "spatial", "resistive", "rp",
             "rp_lines", "crp_jrp", "visibility", "surrogates", "funcnet",
-            "climate", "rp_twins", "isrn", "big_layouts", "funcnet_knn"]
+            "climate", "rp_twins", "isrn", "big_layouts", "funcnet_knn",
+            "resistive_large"]
 
 META = dict(
     flavour="asanrec",
@@ -33,7 +34,7 @@ META = dict(
     technique="compiler sanitizers (ASan+UBSan) on an instrumented rebuild, "
               "hostile-shape workload through the public API",
     rule=("cases: every public entry point that reaches an _ext kernel "
-          "(16 families, one process each; the 15th repeats the pointer-"
+          "(17 families, one process each; the 15th repeats the pointer-"
           "passing entry points with inputs of KiB..MiB size in Fortran, "
           "transposed, strided and negative-stride layouts, where freed "
           "temporaries are no longer hidden by NumPy's small-block cache) x shapes with every dimension in "
@@ -484,6 +485,39 @@ def fam_resistive(ctx):
                 yield (f"ResNetwork.effective_resistance|{tag}",
                        lambda mkd=mkd, n=n: [mkd().effective_resistance(0, j)
                                              for j in range(n)])
+
+
+def fam_resistive_large(ctx):
+    """Networks of 10^2 .. 10^3 nodes (per-link scratch memory, stack use
+    and index arithmetic that small networks never stress)."""
+    from pyunicorn.core import ResNetwork
+    r = ctx.rng("reslarge")
+    for n, p in [(130, 1.0), (150, 0.3), (220, 0.05)] + (
+            [(320, 0.1), (420, 0.01)] if ctx.thorough else []):
+        A = sym_adj(r, n, p)
+        for i in range(n - 1):
+            A[i, i + 1] = A[i + 1, i] = 1
+        R = r.uniform(0.5, 5, (n, n))
+        R = np.triu(R, 1)
+        R = (R + R.T) * A
+        for kind in ("f64", "f32"):
+            RR = R if kind == "f64" else R.astype(np.float32)
+
+            def mk(RR=RR):
+                return ResNetwork(RR, silence_level=3)
+            tag = f"n={n},p={p},{kind}"
+            yield (f"ResNetwork.edge_current_flow_betweenness|large,{tag}",
+                   lambda mk=mk: np.shape(
+                       mk().edge_current_flow_betweenness()))
+            yield (f"ResNetwork.vertex_current_flow_betweenness|large,{tag}",
+                   lambda mk=mk, n=n: [
+                       mk().vertex_current_flow_betweenness(i)
+                       for i in (0, n - 1)])
+            yield (f"ResNetwork.effective_resistance|large,{tag}",
+                   lambda mk=mk, n=n: (
+                       mk().effective_resistance(0, n - 1),
+                       mk().effective_resistance_closeness_centrality(1)
+                       if n <= 220 else None))
 
 
 def _series(ctx, tag, lens=None, dims=(1, 2, 3)):
@@ -953,6 +987,28 @@ def fam_climate(ctx):
                 out = getattr(net, meth)(an.copy(), **kw)
                 return np.shape(out)
             yield (f"{cname}.{meth}|caller-array,T={T},N={N},{dt}", t)
+    # Rainfall helpers called with the caller's own arrays: the public
+    # method takes any number of series, not only the network's
+    for (N0, k, T), dt in itertools.product(
+            ((6, 1, 9), (6, 3, 9), (6, 6, 9), (6, 9, 9), (11, 2, 40),
+             (4, 4, 1)), ("f8", "f4")):
+        def t(N0=N0, k=k, T=T, dt=dt):
+            rr = np.random.default_rng([N0, k, T])
+            obs = rr.gamma(1.0, 1.0, (12, N0)) * (rr.random((12, N0)) < 0.7)
+            cd = climate_data(obs, np.linspace(-50, 50, N0),
+                              np.linspace(0, 200, N0), cycle=1)
+            net = C.RainfallClimateNetwork(
+                cd, threshold=0.2, event_threshold=(0, 1), scale_fac=1.0,
+                offset=0.0, silence_level=3)
+            an = rr.normal(size=(k, T)).astype(dt)
+            mask = rr.random((k, T)) < 0.7
+            out = [np.shape(net.spearman_corr(mask, an)),
+                   np.shape(net.rank_time_series(an)),
+                   np.shape(net.calculate_top_events(np.abs(an), (0.5, 1))),
+                   np.shape(net.calculate_rainfall(np.abs(an), 2.0, 0.5))]
+            return out
+        yield (f"RainfallClimateNetwork.spearman_corr|caller-array,N={N0},"
+               f"k={k},T={T},{dt}", t)
     # Rainfall helpers with masks
     for T, N in itertools.product((1, 2, 5, 10, 17), (1, 2, 6, 11)):
         obs = r.gamma(1.0, 1.0, (T, N)) * (r.random((T, N)) < 0.7)
@@ -1134,6 +1190,7 @@ def fam_big_layouts(ctx):
 
 
 FAM_FUNCS = dict(big_layouts=fam_big_layouts,
+                 resistive_large=fam_resistive_large,
                  funcnet_knn=lambda ctx: fam_funcnet(ctx, part=1),
                  grid=fam_grid, corenet=fam_corenet,
                  interacting=fam_interacting, spatial=fam_spatial,
